@@ -165,7 +165,19 @@ def build(case, extra_mixins=(), solver=None, qp=None, expand=None, map_mode=Non
             res = [dict((k, np.array(v, dtype=float)) for k, v in self.extract_results(m).items())
                    for m in range(self.ensemble_size)]
             tp = self.transcribed_problem
+            nx_ = tp["nlp"]["x"].shape[0]
+            names_ = ["u", "v", "y", "z"] + [v.name() for v in list(self.path_variables) + list(self.extra_variables)]
+            fidx = ca.Function("idx", [self.solver_input],
+                               [ca.vertcat(*[self.state_vector(v, m) for m in range(self.ensemble_size) for v in names_])])
+            flat = [int(round(float(x))) for x in np.array(fidx(ca.DM(list(range(nx_))))).ravel()]
+            indices, pos = {}, 0
+            for m in range(self.ensemble_size):
+                for v in names_:
+                    k = self.state_vector(v, m).shape[0]
+                    indices[(v, m)] = flat[pos:pos + k]
+                    pos += k
             snaps.append({"priority": int(priority), "results": res, "objective_value": self.objective_value,
+                          "indices": indices,
                           "solver_output": np.array(self.solver_output), "stores_before": read_stores(self, variant),
                           "transcribed": tp, "lam": self.lagrange_multipliers})
 
